@@ -48,6 +48,10 @@ def replay_callback(kind, which, retry, retries, fstate, validator, check):
         P.command = ProtocolCommand(b"request", validator_fn)
         P._transport = mock.Mock()
         P._timer = None
+        handle = None
+        if check.startswith("C05_no_armed_timeout_is_forgotten"):
+            handle = loop.call_later(1000, lambda: None)       # the timeout of the attempt in flight, still armed
+            P._timer = handle
         before = fut.done() if fut is not None else None
         args = {"datagram_received": (b"\x01\x02\x03\x04\x05\x06\x07", ("h", 1)), "data_received": (b"\x01\x02\x03\x04\x05\x06\x07",),
                 "error_received": (OSError(113, "EHOSTUNREACH"),), "connection_lost": (None,), "eof_received": (),
@@ -60,6 +64,9 @@ def replay_callback(kind, which, retry, retries, fstate, validator, check):
         out["got_result"] = bool(fut is not None and not before and fut.done() and not fut.cancelled()
                                  and fut.exception() is None)
         out["sent"] = P._transport.sendto.call_count + P._transport.write.call_count
+        if handle is not None:
+            out["forgotten_while_armed"] = (P._timer is not handle) and not handle.cancelled()
+            handle.cancel()
         if fut is not None and fut.done() and not fut.cancelled():
             fut.exception()
     try:
@@ -71,6 +78,8 @@ def replay_callback(kind, which, retry, retries, fstate, validator, check):
         out["violates"] = "raised" in out
     elif check.startswith("C04_C05_callback_does_not_refill_retry_budget"):
         out["violates"] = out.get("retry_after") != retry and not (out.get("got_result") and out.get("retry_after") == 0)
+    elif check.startswith("C05_no_armed_timeout_is_forgotten"):
+        out["violates"] = bool(out.get("forgotten_while_armed"))
     elif check.startswith("C04_callback_does_not_transmit"):
         out["violates"] = out.get("sent", 0) > 0
     else:
